@@ -63,9 +63,12 @@ assert crc16_x25(b"123456789") == 0x906E and crc32c(b"123456789") == 0xE3069283
 # bundle: dict(p=primary, cs=[canonical])
 
 NAMES = [b"node1", b"n", b"dtn", b"none", b"a-5", "knoten-äö".encode(), "€".encode(), b"x" * 23, b"y" * 24, b"group",
-         b"home.net", b"1", b"node:1", "\U0001f680".encode()]
+         b"home.net", b"1", b"node:1", "\U0001f680".encode(),
+         # text that LOOKS escaped or special and must be kept verbatim: percent triplets, '#', '?', upper/lower-case twins, a trailing dot
+         b"sensor%41", b"n%20x", b"GW1", b"gw1", b"none1", b"nonesuch", b"a.b.", b"x#y", b"q?r=1"]
 SERVICES = [b"", b"in", b"incoming", b"~news", b"a/b/c", b"tele/sensors/temperature", b"123456", b"a-5", "dienst-ü".encode(),
-            b"z" * 240, b"-", b"1-2-3", b"%20", "übung".encode(), "€".encode(), "~ü".encode(), "\U0001f680x".encode()]
+            b"z" * 240, b"-", b"1-2-3", b"%20", "übung".encode(), "€".encode(), "~ü".encode(), "\U0001f680x".encode(),
+            b"%7Enews", b"%7enews", b"my%20inbox", b"a%2Db", b"inbox#urgent", b"INBOX", b"inbox", b"a//b", b"x.", b"%", b"%4", b"%zz"]
 
 ODD_SSPS = [b"none", b"none", b"x", b"//", b"/", b"node1", b"//node1", b"///", "ü".encode(), b"none/", b"//none", b"//none/", b"None", b" none",
             b"//" + b"n" * 300 + b"/" + b"s" * 10, b"0", b"dtn:none", b"//a//b", b"a" * 23, b"a" * 24, b"a" * 255, b"a" * 256]
@@ -140,6 +143,11 @@ def rnd_data(rng, btype):
         return ("HOP", rng.choice([0, 1, 23, 24, 32, 254, 255, rng.randrange(256)]), rng.choice([0, 1, 23, 24, 254, 255, rng.randrange(256)]))
     if btype == 6:
         return ("PREV", rnd_eid(rng))
+    if rng.random() < 0.12:
+        # opaque data that happens to look like something: a CBOR self-describe tag, an indefinite array, a whole block, valid UTF-8 digits,
+        # repeated bytes, a would-be CRC field - kept verbatim whatever it looks like
+        return ("UNK", rng.choice([b"\xd9\xd9\xf7\x01", b"\xd9\xd9\xf7", b"\x9f\xff", b"\x9f\x01", b"\x85\x07\x02\x00\x00\x41\x00", b"\x82\x18\x20\x03",
+                                  b"12345", b"\x00" * 9, b"\xff" * 8, b"\x44\x00\x00\x00\x00", b"\x5f\x41\x41\xff", b"\xf6", b"\x18\x18"]))
     return ("UNK", rnd_bytes(rng, 60))
 
 
